@@ -185,7 +185,7 @@ def coq_property(pid, timeout=3000):
         if b.startswith("Closed"):
             assumptions[name] = "Closed under the global context"
         else:
-            assumptions[name] = " ".join(b.split())[:6000]
+            assumptions[name] = b[:8000]
     return dict(ok=(rc == 0), output=text[-6000:], theorems=theorems, examples=examples, assumptions=assumptions)
 
 
